@@ -169,6 +169,9 @@ class SubclassJSONSerializer:
     """
 
     def to_json(self) -> Dict[str, Any]:
+        if "<locals>" in self.__class__.__qualname__:
+            # a class defined inside a function has no importable name, so the result could never be deserialized
+            raise ClassNotSerializableError(self.__class__)
         return {JSON_TYPE_NAME: get_full_class_name(self.__class__)}
 
     @classmethod
@@ -184,6 +187,28 @@ class SubclassJSONSerializer:
         """
         # a class that does not define how it is built from JSON cannot be deserialized
         raise ClassNotDeserializableError(cls)
+
+    @staticmethod
+    def _resolve_enclosing_class(qualified_name: str) -> Type | None:
+        """
+        Resolve "<module>.<class>[.<class>...]" by importing the longest importable module prefix and following the
+        remaining names through classes only.
+
+        :param qualified_name: The dotted name of a class that encloses other classes.
+        :return: The enclosing class, or None if the name does not lead through a module and classes to a class.
+        """
+        names = qualified_name.split(".")
+        for number_of_module_names in range(len(names) - 1, 0, -1):
+            try:
+                owner = importlib.import_module(".".join(names[:number_of_module_names]))
+            except ModuleNotFoundError:
+                continue
+            for name in names[number_of_module_names:]:
+                owner = getattr(owner, name, None)
+                if not isinstance(owner, type):
+                    return None
+            return owner
+        return None
 
     @classmethod
     def from_json(cls, data: Dict[str, Any], **kwargs) -> Self:
@@ -217,12 +242,15 @@ class SubclassJSONSerializer:
             raise InvalidTypeFormatError(fully_qualified_class_name)
 
         try:
-            module = importlib.import_module(module_name)
+            owner = importlib.import_module(module_name)
         except ModuleNotFoundError as exc:
-            raise UnknownModuleError(module_name) from exc
+            # the class may be defined inside another class: module_name is then "<module>.<enclosing classes>"
+            owner = cls._resolve_enclosing_class(module_name)
+            if owner is None:
+                raise UnknownModuleError(module_name) from exc
 
         try:
-            target_cls = getattr(module, class_name)
+            target_cls = getattr(owner, class_name)
         except AttributeError as exc:
             raise ClassNotFoundError(class_name, module_name) from exc
 
